@@ -27,11 +27,19 @@ static int root_fd = -1;
 static int mode;                      /* 0 pass-through, 1 record, 2 hide */
 static char **rec; static size_t nrec, caprec;
 static const char *hidden[8]; static int nhidden;
+static int hide_by_class;             /* hidden[] are path classes (every run of digits written N): every instance is hidden */
 uint64_t envfs_calls, envfs_hits;
 
 void envfs_set_root(int fd) { root_fd = fd; if (fd >= 0 && fd < MAXFD) { free(fd_path[fd]); fd_path[fd] = strdup(""); } }
 void envfs_mode(int m) { mode = m; }
-void envfs_hide(const char **paths, int n) { nhidden = n > 8 ? 8 : n; for (int i = 0; i < nhidden; i++) hidden[i] = paths[i]; }
+void envfs_hide(const char **paths, int n) { hide_by_class = 0; nhidden = n > 8 ? 8 : n; for (int i = 0; i < nhidden; i++) hidden[i] = paths[i]; }
+void envfs_hide_classes(const char **classes, int n) { envfs_hide(classes, n); hide_by_class = 1; }
+void envfs_path_class(const char *p, char *out, size_t n)
+{
+  size_t o = 0;
+  for (; *p && o + 1 < n; p++) { if (*p >= '0' && *p <= '9') { out[o++] = 'N'; while (p[1] >= '0' && p[1] <= '9') p++; } else out[o++] = *p; }
+  out[o] = 0;
+}
 size_t envfs_recorded(char ***out) { *out = rec; return nrec; }
 void envfs_reset_record(void) { for (size_t i = 0; i < nrec; i++) free(rec[i]); nrec = 0; }
 
@@ -54,6 +62,8 @@ static int resolve(int dirfd, const char *path, char *buf, size_t n)
 }
 static int is_hidden(const char *rel)
 {
+  char cls[4096];
+  if (hide_by_class) { envfs_path_class(rel, cls, sizeof(cls)); rel = cls; }
   for (int i = 0; i < nhidden; i++) { size_t l = strlen(hidden[i]); if (!strncmp(rel, hidden[i], l) && (rel[l] == 0 || rel[l] == '/')) return 1; }
   return 0;
 }
